@@ -22,7 +22,50 @@ fn variant(d: &mut Dec, base: &[ModeSpec], p: &GenParams) -> (Vec<ModeSpec>, &'s
     let np = v[mi].pats.len();
     let pi = d.below(np);
     for _attempt in 0..4 {
-        match d.below(12) {
+        match d.below(15) {
+            12 if v[mi].pats[pi].la.is_some() => {
+                // a configuration that reads the same as the base when patterns are rendered as
+                // text the way scnr's own `Display for Pattern` does it (regex text immediately
+                // followed by `(?=..)` / `(?!..)`): the lookahead moves into the regex text. The
+                // twin does not compile (look-around inside a regex is unsupported), so a cache
+                // keyed by such a rendering hands out a scanner where build_uncached() fails.
+                let la = v[mi].pats[pi].la.take().unwrap();
+                let sep = *d.pick(&["", "", " "]);
+                let text = format!(
+                    "{}{}(?{}{})",
+                    rx::print(&v[mi].pats[pi].rx),
+                    sep,
+                    if la.positive { "=" } else { "!" },
+                    rx::print(&la.rx)
+                );
+                v[mi].pats[pi].rx = Rx::Raw(text);
+                return (v, "text_twin_lookahead_in_regex");
+            }
+            13 if np >= 2 && pi + 1 < np && v[mi].pats[pi].la.is_none() => {
+                // two neighbouring patterns become one whose regex text spells out "p1 <sep> t1
+                // <sep> p2" for a family of plausible one-line renderings of a pattern list: a
+                // cache key that is such a rendering without escaping cannot tell the two apart
+                // (seeds C13l, C14l; only renderings whose separators are in this family)
+                let sep1 = *d.pick(&[" => ", "=>", " -> ", "->", ":", ": ", " : ", "=", " = ", " ", ",", ", ", "#", "@", "\t"]);
+                let sep2 = *d.pick(&[", ", ", ", ",", "; ", ";", " ", "|", " | ", "\n"]);
+                let p1 = v[mi].pats.remove(pi);
+                let text = format!("{}{}{}{}{}", rx::print(&p1.rx), sep1, p1.tt, sep2, rx::print(&v[mi].pats[pi].rx));
+                v[mi].pats[pi].rx = Rx::Raw(text);
+                return (v, "text_twin_patterns_merged");
+            }
+            14 if np >= 2 && pi + 1 < np && v[mi].pats[pi].la.is_none() => {
+                // the same for renderings that put the token type first: "t1 <u> p1 <u> <r> t2 <u>
+                // p2 <u> <r>" is also what ONE pattern of type t1 with the regex text "p1 <u> <r> t2
+                // <u> p2" renders to (u = unit separator, r = record separator of the rendering)
+                let u = *d.pick(&["\u{1f}", "\u{1f}", "\0", "\t", ",", ":", " ", "|", "="]);
+                let r = *d.pick(&["\u{1e}", "\u{1e}", "\n", ";", ",", "", " ", "|", "\0"]);
+                let p1 = v[mi].pats.remove(pi);
+                let p2 = &mut v[mi].pats[pi];
+                let text = format!("{}{}{}{}{}{}", rx::print(&p1.rx), u, r, p2.tt, u, rx::print(&p2.rx));
+                p2.rx = Rx::Raw(text);
+                p2.tt = p1.tt;
+                return (v, "text_twin_patterns_merged_type_first");
+            }
             11 => {
                 // a configuration that collides with the base under FxHasher (the hasher of the
                 // cache map, rustc-hash 2.1: h = (h + word) * K per integer word): the last
@@ -498,7 +541,7 @@ impl Check for C13 {
         "C13"
     }
     fn rule(&self) -> &'static str {
-        "case = sequence of 3-10 builds drawn with repetition from a pool made of a base configuration, 2-4 near-identical variants (one token type changed, two patterns swapped, lookahead added / removed / polarity flipped / pattern changed, transition added / retargeted, mode renamed, one pattern changed, one mode appended, last mode dropped, a transition changed so that the configuration collides with the base under the cache map's hasher), an unrelated configuration and failing configurations (syntax error or unsupported construct in first / last pattern or lookahead of any mode, or in one more mode appended to the base); mode names carry a per-execution nonce so that executions never meet each other's cache entries; oracle = every build() versus build_uncached() of the same modes: same Ok/Err, equal mode_name, equal token streams on probe inputs sampled from the languages of ALL pool members, and equivalent automata (identical dumps with class predicates compared on a probe set of ~600 characters, or - when dumps differ, and always for the last build of every fourth case - exact language equivalence per mode and lookahead over the alphabet atoms); a quarter of the cases instead drive the simple builder add_patterns(..).build() with pattern lists that are prefixes / extensions of each other, one pattern changed, two swapped, empty, failing (a nonce pattern stands first), compared with the same patterns built without the cache; fixed sweep cases build 70 ... 1 100 (thorough: 9 000) distinct configurations, hit a few early ones, build two more and re-build all of them twice, each time compared with the uncached scanner; non-trivial = a variant is built after its sibling was cached, or a valid build follows a failing one"
+        "case = sequence of 3-10 builds drawn with repetition from a pool made of a base configuration, 2-4 near-identical variants (one token type changed, two patterns swapped, lookahead added / removed / polarity flipped / pattern changed, transition added / retargeted, mode renamed, one pattern changed, one mode appended, last mode dropped, a transition changed so that the configuration collides with the base under the cache map's hasher, a lookahead moved into the regex text as scnr's Display for Pattern renders it, two neighbouring patterns merged into one regex that spells out 'p1 <sep> t1 <sep> p2' for a family of one-line renderings), an unrelated configuration and failing configurations (syntax error or unsupported construct in first / last pattern or lookahead of any mode, or in one more mode appended to the base); mode names carry a per-execution nonce so that executions never meet each other's cache entries; oracle = every build() versus build_uncached() of the same modes: same Ok/Err, equal mode_name, equal token streams on probe inputs sampled from the languages of ALL pool members, and equivalent automata (identical dumps with class predicates compared on a probe set of ~600 characters, or - when dumps differ, and always for the last build of every fourth case - exact language equivalence per mode and lookahead over the alphabet atoms); a quarter of the cases instead drive the simple builder add_patterns(..).build() with pattern lists that are prefixes / extensions of each other, one pattern changed, two swapped, empty, failing (a nonce pattern stands first), compared with the same patterns built without the cache; fixed sweep cases build 70 ... 1 100 (thorough: 9 000) distinct configurations, hit a few early ones, build two more and re-build all of them twice, each time compared with the uncached scanner; non-trivial = a variant is built after its sibling was cached, or a valid build follows a failing one"
     }
     fn nondeterministic(&self) -> bool {
         // "whatever was built before" includes the builds of the other cases of this process (the
@@ -563,7 +606,7 @@ impl Check for C13 {
         let seq: Vec<usize> = (0..n).map(|_| d.below(pool.len())).collect();
         let mut inputs = Vec::new();
         for (modes, kind) in pool.iter().take(8) {
-            if kind == "failing" {
+            if kind == "failing" || kind.starts_with("text_twin") {
                 continue;
             }
             let c = Case {
@@ -621,7 +664,7 @@ impl Check for C13 {
                 modes: modes.clone(),
                 ..Case::default()
             };
-            if kind != "failing" && kind != "transitions_reordered" && domain_ok(&c).is_err() {
+            if kind != "failing" && !kind.starts_with("text_twin") && kind != "transitions_reordered" && domain_ok(&c).is_err() {
                 return Ok(discard("discard_domain"));
             }
             if modes.is_empty() || modes.iter().any(|m| m.pats.is_empty()) {
